@@ -51,7 +51,7 @@ TCtor ==
               misc |-> E.misc]
   /\ built' = NoLevels /\ fgs' = FALSE /\ resNorms' = <<>> /\ exErrs' = <<>> /\ nIter' = -1 /\ meanRho' = UNSET
   /\ initNorm' = UNDEF /\ curNorm' = UNDEF /\ start' = <<"none">> /\ sid' = 0 /\ pc' = "idle" /\ k' = 0 /\ mh' = <<>>
-  /\ memo' = <<>> /\ sh' = FreshSh /\ calls' = 0 /\ stopped' = FALSE /\ justSolved' = FALSE /\ hist' = <<>>
+  /\ memo' = <<>> /\ sh' = FreshSh /\ calls' = 0 /\ stopped' = FALSE /\ justSolved' = FALSE /\ hist' = <<>> /\ tsolve' = {}
   /\ pend' = NoPend /\ prevCur' = <<0, 0, 0>> /\ fmgSeq' = <<>> /\ c01' = (E.c01 = 1) /\ cyc' = <<>>
 
 TraceInit == Init /\ l = 1 /\ pend = NoPend /\ prevCur = <<0, 0, 0>> /\ fmgSeq = <<>> /\ c01 = FALSE /\ cyc = <<>>
@@ -89,6 +89,7 @@ TSolveEnter ==
   /\ IsEvent("SolveEnter") /\ Consume
   /\ SolveEnter
   /\ E.normsSz = Len(resNorms) /\ E.errsSz = Len(exErrs) /\ (E.fgs = 1) = fgs
+  /\ (E.tZero = 1) = (tsolve' = {sid'})            \* the solve timers start from zero
   /\ fmgSeq' = <<>> /\ UNCHANGED <<pend, prevCur, c01, cyc>>
 
 \* pre-order of the cycle-function entries of one cycle of `kind` started on level d (kind: 0 V, 1 W, 2 F); only the
